@@ -691,15 +691,17 @@ func Probe(property string, f func(w *Worker)) (out []Viol) {
 func ReplayBy(property string, f func(w *Worker, v *Viol)) func(v *Viol) (bool, string) {
 	return func(v *Viol) (bool, string) {
 		hist := v.History
-		v.History = nil
 		got := Probe(property, func(w *Worker) { f(w, v) })
 		var sigs []string
 		for _, g := range got {
 			if g.Sig == v.Sig {
+				// reproduced in this process; the record keeps the preceding inputs, which --replay runs first (this
+				// process is not fresh, so they may have mattered)
 				return true, ""
 			}
 			sigs = append(sigs, g.Sig)
 		}
+		v.History = nil
 		if len(hist) == 0 {
 			return false, fmt.Sprintf("replay produced signatures %q", sigs)
 		}
